@@ -1,75 +1,130 @@
-(* C16 model driver: same case format / output format as harness.cpp (index arithmetic cases; hist = L1 model). *)
+(* C16 model driver: same case format / output format as harness.cpp (index arithmetic cases; hist = L1 model).
+   The functions run here are the twins of coq/Fast.v, each PROVED equal to the generated function (wrapU computed by land). *)
 open Zutil
-let four_sq l i =
-  let (s, j) = Gen_SegSqrt.coq_GetSegItemIndexes l i in
-  Printf.sprintf "%s %s %s %s" (string_of_z s) (string_of_z j)
-    (string_of_z (Gen_SegSqrt.coq_GetIndex l s j)) (string_of_z (Gen_SegSqrt.coq_GetItemCount l s))
-let four_cn l i =
-  let (s, j) = Gen_SegCnst.coq_GetSegItemIndexes l i in
-  Printf.sprintf "%s %s %s %s" (string_of_z s) (string_of_z j)
-    (string_of_z (Gen_SegCnst.coq_GetIndex l s j)) (string_of_z (Gen_SegCnst.coq_GetItemCount l))
-let range four l lo n =
+let vals_sq l i =
+  let (s, j) = Fast.sq_seg l i in (s, j, Fast.sq_idx l s j, Fast.sq_cnt l s)
+let vals_cn l i =
+  let (s, j) = Fast.cn_seg l i in (s, j, Fast.cn_idx l s j, Fast.cn_cnt l)
+let four vals l i =
+  let (s, j, idx, cnt) = vals l i in
+  Printf.sprintf "%s %s %s %s" (string_of_z s) (string_of_z j) (string_of_z idx) (string_of_z cnt)
+(* the same lossless run-length form as harness.cpp *)
+let range vals l lo n =
   let b = Buffer.create 4096 in
   let lo = Z.of_string lo and n = int_of_string n in
+  let s0 = ref Z.zero and j0 = ref Z.zero and i0 = ref Z.zero and c0 = ref Z.zero and len = ref 0 in
+  let flush () = if !len > 0 then
+      Buffer.add_string b (Printf.sprintf "%s %s %s %s x%d;" (Z.to_string !s0) (Z.to_string !j0) (Z.to_string !i0) (Z.to_string !c0) !len) in
   for k = 0 to n - 1 do
-    Buffer.add_string b (four l (z_of_zarith (Z.add lo (Z.of_int k)))); Buffer.add_char b ';'
-  done; Buffer.contents b
-(* hist F L op...: the extracted L1 model (SegModel.step) over the extracted GENERATED sizing functions *)
+    let (s, j, idx, cnt) = vals l (z_of_zarith (Z.add lo (Z.of_int k))) in
+    let s = zarith_of_z s and j = zarith_of_z j and idx = zarith_of_z idx and cnt = zarith_of_z cnt in
+    if !len > 0 && Z.equal s !s0 && Z.equal cnt !c0 && Z.equal j (Z.add !j0 (Z.of_int !len)) && Z.equal idx (Z.add !i0 (Z.of_int !len))
+    then incr len
+    else begin flush (); s0 := s; j0 := j; i0 := idx; c0 := cnt; len := 1 end
+  done; flush (); Buffer.contents b
+(* hist / hist2: the extracted L1 model (SegModel.step / wstep) over the twins of the GENERATED sizing functions.
+   The driver keeps a twin of the element VALUES only to know how many elements a filter-Remove deletes. *)
+let sizing f l = if f = "sq" then (Fast.sq_seg l, Fast.sq_idx l) else (Fast.cn_seg l, Fast.cn_idx l)
+let split_op tok =
+  let c = tok.[0] in
+  let rest = if String.length tok > 1 then String.sub tok 1 (String.length tok - 1) else "0" in
+  match String.index_opt rest ':' with
+  | Some k -> (c, String.sub rest 0 k, String.sub rest (k + 1) (String.length rest - k - 1))
+  | None -> (c, rest, "0")
+let rec take n l = if n <= 0 then [] else match l with [] -> [] | x :: t -> x :: take (n - 1) t
+let rec drop n l = if n <= 0 then l else match l with [] -> [] | _ :: t -> drop (n - 1) t
+let rec rep n x = if n <= 0 then [] else x :: rep (n - 1) x
+let rec seqfrom a n = if n <= 0 then [] else a :: seqfrom (a + 1) (n - 1)
+(* translate one harness op into model ops; twin/next evolve exactly as in harness.cpp *)
+let model_ops tok (twin : int list ref) (next : int ref) : SegModel.op list option =
+  let (c, a, b) = split_op tok in
+  let n = int_of_string a and m = int_of_string b in
+  let old = List.length !twin in
+  let zn = z_of_string a in
+  match c with
+  | 'a' -> twin := !twin @ seqfrom !next n; next := !next + n; Some (rep n SegModel.AddBack)
+  | 'r' -> Some [SegModel.Reserve zn]
+  | 's' -> twin := (if n <= old then take n !twin else !twin @ rep (n - old) 0); Some [SegModel.SetCount zn]
+  | 'k' -> Some [SegModel.ShrinkFit]
+  | 'K' -> Some [SegModel.ShrinkTo zn]
+  | 'b' -> if n <= old then (twin := take (old - n) !twin; Some [SegModel.RemoveBack zn]) else Some []
+  | 'c' -> twin := []; Some [SegModel.Clear false]
+  | 'C' -> twin := []; Some [SegModel.Clear true]
+  | 'i' -> if n <= old then (twin := take n !twin @ (!next :: drop n !twin); incr next; Some [SegModel.InsertN (z_of_int 1)]) else Some []
+  | 'd' -> if n < old then (twin := take n !twin @ drop (n + 1) !twin; Some [SegModel.RemoveBack (z_of_int 1)]) else Some []
+  | 'n' -> Some [SegModel.AddBackNogrow]   (* harness: only when count < capacity; the model op has the same guard *)
+  | 'I' -> if n <= old then (twin := take n !twin @ rep m !next @ drop n !twin; incr next; Some [SegModel.InsertN (z_of_int m)]) else Some []
+  | 'J' -> if n <= old then (twin := take n !twin @ seqfrom !next m @ drop n !twin; next := !next + m; Some [SegModel.InsertN (z_of_int m)]) else Some []
+  | 'D' -> if n <= old && m <= old - n then (twin := take n !twin @ drop (n + m) !twin; Some [SegModel.RemoveBack (z_of_int m)]) else Some []
+  | 'F' -> if n > 0 then begin
+             let t2 = List.filter (fun v -> v mod n <> 0) !twin in
+             let k = old - List.length t2 in twin := t2; Some [SegModel.RemoveBack (z_of_int k)] end else Some []
+  | _ -> None
+let show idx (s : SegModel.state) =
+  let top = match List.rev s.SegModel.segs with [] -> "-1" | x :: _ -> string_of_z x in
+  Printf.sprintf "%s/%s/%s/%s" (string_of_z s.SegModel.count) (string_of_z (SegModel.len s)) (string_of_z (SegModel.capacity idx s)) top
+(* 'n' when the array is full: harness does nothing and the twin must not change; AddBackNogrow in the model has the same guard,
+   but the twin needs the decision *)
+let nogrow_fix tok idx (st : SegModel.state) twin next =
+  if tok.[0] = 'n' && Z.lt (zarith_of_z st.SegModel.count) (zarith_of_z (SegModel.capacity idx st)) then (twin := !twin @ [!next]; incr next)
 let hist f l ops =
-  let l = z_of_string l in
-  let (seg, idx) = if f = "sq" then (Gen_SegSqrt.coq_GetSegItemIndexes l, Gen_SegSqrt.coq_GetIndex l)
-                   else (Gen_SegCnst.coq_GetSegItemIndexes l, Gen_SegCnst.coq_GetIndex l) in
-  let st = ref SegModel.empty in
-  let b = Buffer.create 1024 in
-  let bad = ref false in
-  let apply o = if not !bad then (match SegModel.step seg idx !st o with Some s -> st := s | None -> bad := true) in
-  List.iter (fun tok ->
-    if not !bad then begin
-      let c = tok.[0] in
-      let n = if String.length tok > 1 then String.sub tok 1 (String.length tok - 1) else "0" in
-      let zn = z_of_string n in
-      let cnt () = zarith_of_z (!st).SegModel.count in
-      (match c with
-       | 'a' -> for _ = 1 to int_of_string n do apply SegModel.AddBack done
-       | 'r' -> apply (SegModel.Reserve zn)
-       | 's' -> apply (SegModel.SetCount zn)
-       | 'k' -> apply SegModel.ShrinkFit
-       | 'K' -> apply (SegModel.ShrinkTo zn)
-       | 'b' -> apply (SegModel.RemoveBack zn)
-       | 'c' -> apply (SegModel.Clear false)
-       | 'C' -> apply (SegModel.Clear true)
-       | 'i' -> if Z.leq (Z.of_string n) (cnt ()) then apply SegModel.Insert
-       | 'd' -> if Z.lt (Z.of_string n) (cnt ()) then apply SegModel.Remove
-       | 'n' -> apply SegModel.AddBackNogrow
-       | _ -> bad := true);
-      if !bad then Buffer.add_string b "MODEL-ASSERT" else begin
-        let s = !st in
-        let top = match List.rev s.SegModel.segs with [] -> "-1" | x :: _ -> string_of_z x in
-        Buffer.add_string b (Printf.sprintf "%s/%s/%s/%s " (string_of_z s.SegModel.count) (string_of_z (SegModel.len s))
-                               (string_of_z (SegModel.capacity idx s)) top)
-      end
-    end) ops;
+  let (seg, idx) = sizing f (z_of_string l) in
+  let st = ref SegModel.empty and twin = ref [] and next = ref 1 in
+  let b = Buffer.create 1024 and bad = ref false in
+  List.iter (fun tok -> if not !bad then begin
+    nogrow_fix tok idx !st twin next;
+    (match model_ops tok twin next with
+     | None -> bad := true
+     | Some os -> List.iter (fun o -> if not !bad then match SegModel.step seg idx !st o with Some s -> st := s | None -> bad := true) os);
+    Buffer.add_string b (if !bad then "MODEL-ASSERT" else show idx !st ^ " ") end) ops;
+  Buffer.contents b
+let hist2 f l ops =
+  let (seg, idx) = sizing f (z_of_string l) in
+  let w = ref SegModel.wempty in
+  let ta = ref [] and tb = ref [] and next = ref 1 in
+  let b = Buffer.create 1024 and bad = ref false in
+  let wapply o = if not !bad then match SegModel.wstep seg idx !w o with Some x -> w := x | None -> bad := true in
+  List.iter (fun tok -> if not !bad then begin
+    if String.length tok > 2 && tok.[1] = '.' then begin
+      let on_a = tok.[0] = 'A' in
+      let sub = String.sub tok 2 (String.length tok - 2) in
+      let twin = if on_a then ta else tb in
+      nogrow_fix sub idx (if on_a then SegModel.stA !w else SegModel.stB !w) twin next;
+      match model_ops sub twin next with
+      | None -> bad := true
+      | Some os -> List.iter (fun o -> wapply (if on_a then SegModel.OnA o else SegModel.OnB o)) os
+    end else begin
+      let ab = String.length tok = 3 && tok.[1] = 'A' in
+      (match tok.[0] with
+       | 'm' | 'M' -> if ab then (tb := !ta; ta := []; wapply SegModel.MoveAB) else (ta := !tb; tb := []; wapply SegModel.MoveBA)
+       | 'x' -> let t = !ta in ta := !tb; tb := t; wapply SegModel.SwapAB
+       | 'c' -> if ab then (tb := !ta; wapply (SegModel.CopyAB true)) else (ta := !tb; wapply (SegModel.CopyBA true))
+       | 'k' -> if ab then (tb := !ta; wapply (SegModel.CopyAB false)) else (ta := !tb; wapply (SegModel.CopyBA false))
+       | _ -> bad := true)
+    end;
+    Buffer.add_string b (if !bad then "MODEL-ASSERT" else show idx (SegModel.stA !w) ^ "|" ^ show idx (SegModel.stB !w) ^ " ") end) ops;
   Buffer.contents b
 let () = iter_lines (fun line ->
   match words line with
   | "hist" :: f :: l :: ops -> print_endline (hist f l ops)
-  | ["lg64"; v] -> print_endline (string_of_z (Gen_Log2_64.coq_Log2 (z_of_string v)))
-  | ["lg32"; v] -> print_endline (string_of_z (Gen_Log2_32.coq_Log2 (z_of_string v)))
-  | ["sq"; l; i] -> print_endline (four_sq (z_of_string l) (z_of_string i))
-  | ["cn"; l; i] -> print_endline (four_cn (z_of_string l) (z_of_string i))
+  | "hist2" :: f :: l :: ops -> print_endline (hist2 f l ops)
+  | ["lg64"; v] -> print_endline (string_of_z (Fast.log2_64 (z_of_string v)))
+  | ["lg32"; v] -> print_endline (string_of_z (Fast.log2_32 (z_of_string v)))
+  | ["sq"; l; i] -> print_endline (four vals_sq (z_of_string l) (z_of_string i))
+  | ["cn"; l; i] -> print_endline (four vals_cn (z_of_string l) (z_of_string i))
   | ["sqs"; l; i] ->
-    let (s, j) = Gen_SegSqrt.coq_GetSegItemIndexes (z_of_string l) (z_of_string i) in
+    let (s, j) = Fast.sq_seg (z_of_string l) (z_of_string i) in
     Printf.printf "%s %s\n" (string_of_z s) (string_of_z j)
-  | ["sqr"; l; lo; n] -> print_endline (range four_sq (z_of_string l) lo n)
-  | ["cnr"; l; lo; n] -> print_endline (range four_cn (z_of_string l) lo n)
+  | ["sqr"; l; lo; n] -> print_endline (range vals_sq (z_of_string l) lo n)
+  | ["cnr"; l; lo; n] -> print_endline (range vals_cn (z_of_string l) lo n)
   | ["sqx"; l; s; j] ->
     let l = z_of_string l in
-    let i = Gen_SegSqrt.coq_GetIndex l (z_of_string s) (z_of_string j) in
-    let (s2, j2) = Gen_SegSqrt.coq_GetSegItemIndexes l i in
+    let i = Fast.sq_idx l (z_of_string s) (z_of_string j) in
+    let (s2, j2) = Fast.sq_seg l i in
     Printf.printf "%s %s %s\n" (string_of_z i) (string_of_z s2) (string_of_z j2)
   | ["cnx"; l; s; j] ->
     let l = z_of_string l in
-    let i = Gen_SegCnst.coq_GetIndex l (z_of_string s) (z_of_string j) in
-    let (s2, j2) = Gen_SegCnst.coq_GetSegItemIndexes l i in
+    let i = Fast.cn_idx l (z_of_string s) (z_of_string j) in
+    let (s2, j2) = Fast.cn_seg l i in
     Printf.printf "%s %s %s\n" (string_of_z i) (string_of_z s2) (string_of_z j2)
   | _ -> print_endline "?")
